@@ -139,6 +139,83 @@ def do_render(inst, root, o, data):
     return [used_method(out, root, data), int(bool(warned))]
 
 
+KITTY_TX = re.compile(r"\x1b_G[^;\x1b]*;")
+
+
+class FrameLog(io.StringIO):
+    """A stdout that remembers every write() separately: draw() prints every frame of an
+    animation with ONE write."""
+
+    def __init__(self):
+        super().__init__()
+        self.chunks = []
+
+    def write(self, s):
+        self.chunks.append(s)
+        return super().write(s)
+
+
+def has_transmission(chunk, root):
+    if root == "kitty":
+        return any("a=T" in ctl for ctl in KITTY_TX.findall(chunk))
+    return bool(ITERM2_TX.search(chunk))
+
+
+def draw_frames(inst, root, animate, style):
+    """The separately written pieces of draw()'s output that transmit image data: one per
+    rendered frame.  No real time passes (sleep is a no-op while drawing)."""
+    import contextlib
+    import time
+
+    log = FrameLog()
+    real_sleep = time.sleep
+    time.sleep = lambda s: None
+    try:
+        with contextlib.redirect_stdout(log):
+            inst.draw(animate=animate, repeat=1, cached=False, **style)
+    finally:
+        time.sleep = real_sleep
+    return [c for c in log.chunks if has_transmission(c, root)]
+
+
+def do_route(inst, root, o, data):
+    """A render REQUEST by a given route ("fmt": format(), "still": draw(animate=False),
+    "anim": draw(animate=True), "iter": all frames of an ImageIterator): one
+    [method used, warning issued] row per rendered frame (the classifier of single renders,
+    used_method, applied to every frame)."""
+    m = o.get("m")
+    route = o["route"]
+    others = o.get("others", {})
+    style = {} if m is None else {"method": METHODS[m] if o.get("pres", 0) % 2 else METHODS[m].upper()}
+    style.update({{"z": "z_index", "mix": "mix", "c": "compress"}[k]: (bool(v) if k == "mix" else v)
+                  for k, v in others.items()})
+    spec = ("" if m is None else "+" + "LWA"[m])
+    if others:
+        spec = (spec or "+") + "".join(
+            {"z": "z%d", "mix": "m%d", "c": "c%d"}[k] % v for k, v in sorted(others.items(), reverse=True))
+    with warnings.catch_warnings(record=True) as caught:
+        warnings.simplefilter("always")
+        try:
+            if route == "fmt":
+                frames = [format(inst, ["", "1.1", "2.2", ""][o.get("pres", 0) % 4] + spec)]
+            elif route in ("still", "anim"):
+                frames = draw_frames(inst, root, route == "anim", style)
+            else:
+                it = ImageIterator(inst, 1, "1.1" + spec, False)
+                try:
+                    frames = list(it)
+                finally:
+                    it.close()
+        except Exception as e:
+            return [[-9, 0, type(e).__name__ + ": " + str(e)[:80]]]
+    warned = [w for w in caught if issubclass(w.category, TermImageUserWarning)
+              and "native animation" in str(w.message)]
+    rows = [[used_method(f, root, data), 0] for f in frames]
+    if rows and warned:
+        rows[0][1] = 1
+    return rows
+
+
 class Falsy:
     """An object of a user class whose truth value is False."""
 
@@ -412,7 +489,10 @@ def run_case(case):
         for k, o in enumerate(case["ops"]):
             s = o["s"]
             if s == "rd":
-                renders.append(do_render(insts[o["t"]], root, o, datas[o["t"]]))
+                if "route" in o:
+                    renders.extend(do_route(insts[o["t"]], root, o, datas[o["t"]]))
+                else:
+                    renders.append(do_render(insts[o["t"]], root, o, datas[o["t"]]))
                 for s2 in settings:  # a render changes no setting
                     snap = snapshot(s2)
                     if snap != cur[s2]:
@@ -482,7 +562,7 @@ def run_case(case):
             final = {"fresh_ok": [0], "override_ok": [0], "instantiation_ok": [0],
                      "error": type(e).__name__}
         return {"obs": obs, "interference": interference, "framing_bad": framing_bad, "final": final,
-                "renders": renders, "srcs": [[int(i.is_animated), len(d)] for i, d in zip(insts, datas)],
+                "renders": renders, "srcs": [[int(i.is_animated), len(d), i.n_frames] for i, d in zip(insts, datas)],
                 "mros": mros, "clean_start": clean_start}
     finally:
         for inst in insts:
